@@ -7,6 +7,7 @@ R19.2  from_isodatetime: the microsecond / fractional-second value is not
 R19.3  to_iso_datetime rewrites only a zero offset to 'Z' (regex AST), and the
        parser maps 'Z' and +-HH:MM to a tzinfo built from the same groups.
 R19.4  the template filters isoDuration / isoDateTime are the library functions.
+R19.5  to_iso_datetime renders the unmodified value with isoformat() at microsecond precision.
 """
 from __future__ import annotations
 
@@ -506,6 +507,56 @@ def r19_4(rep: Report) -> None:
                      f'app_template_filter (decorators {deco})', fn)
 
 
+def r19_5(rep: Report) -> None:
+    """the renderer keeps every digit the parser reads back: the text comes from isoformat() at
+    full (microsecond) precision of the unmodified value"""
+    rid = 'R19.5'
+    rep.rule(rid, 'to_iso_datetime renders the unmodified value at microsecond precision', floor=1)
+    tree = rep.repo.tree(DT)
+    fn = need(find_func(tree, 'to_iso_datetime'), f'{DT}::to_iso_datetime')
+    construct = f'{DT}::to_iso_datetime'
+    param = fn.args.args[0].arg
+    renders = 0
+    for n in ast.walk(fn):
+        if not (isinstance(n, ast.Call) and isinstance(n.func, ast.Attribute)):
+            continue
+        a = n.func.attr
+        if a == 'isoformat':
+            renders += 1
+            spec = None
+            if len(n.args) >= 2:
+                spec = n.args[1]
+            for k in n.keywords:
+                if k.arg == 'timespec':
+                    spec = k.value
+                elif k.arg is None:
+                    spec = k.value          # **kwargs: unknown
+            ok = spec is None or (isinstance(spec, ast.Constant) and spec.value in ('auto', 'microseconds'))
+            if ok and norm(n.func.value) == param:
+                rep.ok(rid, construct, 'isoformat at full precision')
+            elif not ok:
+                rep.fail(rid, construct, 'isoformat at full precision',
+                         f'`{short(n, 70)}` renders with timespec {norm(spec)}: digits of the microsecond field '
+                         'are cut off (not rounded), so parsing the text back gives an earlier instant', n)
+            else:
+                rep.fail(rid, construct, 'isoformat at full precision',
+                         f'`{short(n, 70)}` renders `{norm(n.func.value)}`, not the value it was given', n)
+        elif a == 'strftime':
+            renders += 1
+            fmt = n.args[0] if n.args else None
+            if isinstance(fmt, ast.Constant) and isinstance(fmt.value, str) and '%f' in fmt.value:
+                rep.ok(rid, construct, 'strftime with %f')
+            else:
+                rep.fail(rid, construct, 'strftime with %f',
+                         f'`{short(n, 70)}` formats without the microsecond field', n)
+        elif a == 'replace' and norm(n.func.value) == param and any(
+                k.arg in ('microsecond', 'second', 'minute', 'hour') for k in n.keywords):
+            rep.fail(rid, construct, 'value unchanged before rendering',
+                     f'`{short(n, 70)}` drops part of the instant before it is rendered', n)
+    if not renders:
+        raise AnalysisError('to_iso_datetime: no isoformat()/strftime() rendering found')
+
+
 def analyse(rep: Report) -> None:
     rep.explanation = (
         'Interval abstract interpretation (zone domain, path-sensitive on if tests) of '
@@ -517,3 +568,4 @@ def analyse(rep: Report) -> None:
     r19_2(rep)
     r19_3(rep)
     r19_4(rep)
+    r19_5(rep)
